@@ -17,6 +17,17 @@ import time
 BLOCK_TIMEOUT = 0.5
 
 
+class Everywhere:
+    """a target 'file' that contains every file except the harness's own and the threading module: the threads are stopped
+    before each line they execute anywhere (the library, lark, the standard library's pure-Python modules)"""
+
+    def __contains__(self, filename):
+        return "/vmon/" not in filename and not filename.endswith(("threading.py", "<string>")) and not filename.startswith("<frozen")
+
+
+EVERYWHERE = Everywhere()
+
+
 class Run:
     def __init__(self, funcs, traced, target_file, prefix=(), rng=None, switch_prob=0.3):
         self.funcs = funcs
@@ -47,7 +58,7 @@ class Run:
 
         def glob(frame, event, arg):
             code = frame.f_code
-            files = self.target_file if isinstance(self.target_file, (tuple, list, set)) else (self.target_file,)
+            files = self.target_file if isinstance(self.target_file, (tuple, list, set, Everywhere)) else (self.target_file,)
             if code.co_filename in files and (self.traced is None or code.co_qualname in self.traced):
                 return local
             return None
